@@ -389,7 +389,7 @@ func (m *machine) pickName(rt *rapid.T) string {
 func (m *machine) genSrc(rt *rapid.T) Src {
 	s := Src{Name: m.pickName(rt), Marker: fmt.Sprintf("m%d", m.nsrc+1)}
 	s.Kind = rp.Pick(rt, "kind", "file", "dir", "file", "dir", "dir", "dir", "file", "dir", "file", "dir", "dir", "file-nonexec", "file-badname", "missing")
-	s.Meta = rp.Pick(rt, "meta", "ok", "ok", "ok", "ok", "ok", "ok", "ok", "ok", "ok", "ok", "ok", "ok", "misnamed", "badjson", "missing", "exit1")
+	s.Meta = rp.Pick(rt, "meta", "ok", "ok", "ok", "ok", "ok", "ok", "ok", "ok", "ok", "ok", "ok", "ok", "misnamed", "badjson", "missing", "exit1", "trailing", "trailing-brace")
 	switch rp.Pick(rt, "vmode", "pool", "pool", "pool", "pool", "same", "invalid") {
 	case "pool":
 		s.Version = validVersions[rapid.IntRange(0, len(validVersions)-1).Draw(rt, "version")].v
@@ -428,6 +428,12 @@ func (m *machine) install(rt *rapid.T) {
 		return
 	}
 	src := m.genSrc(rt)
+	if src.Kind == "dir" || src.Kind == "file" {
+		src.Spelling = rp.Pick(rt, "pathSpelling", "", "", "", "trailing-slash", "double-slash", "dot-segment", "up-and-down")
+		if src.Kind == "file" && (src.Spelling == "trailing-slash" || src.Spelling == "up-and-down") {
+			src.Spelling = "double-slash" // a file cannot be followed by a separator
+		}
+	}
 	overwrite := rapid.IntRange(0, 2).Draw(rt, "overwrite") == 2
 	m.nsrc++
 	b, err := build(filepath.Join(m.base, fmt.Sprintf("src%d", m.nsrc)), src)
@@ -447,6 +453,9 @@ func (m *machine) install(rt *rapid.T) {
 	old := m.model[v.plugin]
 
 	m.cls("op=install", "meta="+src.Meta, "expect="+v.expect)
+	if src.Spelling != "" {
+		m.cls("source-path-spelling=" + src.Spelling)
+	}
 	if src.Kind == "dir" {
 		m.cls("src=dir")
 		if len(src.Extras)+len(src.Subdirs)+len(src.Links) > 0 || src.Second != "" {
@@ -495,7 +504,7 @@ func (m *machine) install(rt *rapid.T) {
 	}
 
 	before := m.snap(rt)
-	existing, newMeta, err := m.mgr.Install(ctx, plugin.CLIInstallOptions{PluginPath: b.Path, Overwrite: overwrite})
+	existing, newMeta, err := m.mgr.Install(ctx, plugin.CLIInstallOptions{PluginPath: spell(b.Path, src.Spelling, src.Kind == "dir"), Overwrite: overwrite})
 	after := m.snap(rt)
 
 	if err != nil {
